@@ -126,7 +126,7 @@ def run(tier):
     chk.extra["model_runs"] = {mcfg: meta}
     # G: replay cases (exhaustive shallow + simulated deep)
     gens = [("MC_BlockBuilder_gen_quick.cfg" if quick else "MC_BlockBuilder_gen.cfg", None, None),
-            ("MC_BlockBuilder_sim.cfg", 40 if quick else 500, 14)]
+            ("MC_BlockBuilder_sim.cfg", 40 if quick else 300, 14)]
     paths = []
     hits = {"hit": 0, "miss": 0}
     exits = Counter()
@@ -146,7 +146,7 @@ def run(tier):
         paths.append(t)
     # T: seeded random histories
     t = os.path.join(wd, "random.ndjson")
-    p = vlib.harness(["builder", "--seed", chk.seed, "--out", t, "--hist", 120 if quick else 4000, "--len", 14, "--bundles", os.path.join(vlib.REPO, "test-bundles")])
+    p = vlib.harness(["builder", "--seed", chk.seed, "--out", t, "--hist", 120 if quick else 2000, "--len", 14, "--bundles", os.path.join(vlib.REPO, "test-bundles")])
     st = json.loads(p.stdout.strip().splitlines()[-1])
     exits.update(st["exits"])
     chk.extra["test_bundles_in_pool"] = st["test_bundles"]
@@ -217,4 +217,34 @@ def run(tier):
                        "consensus cost = run_block_generator2 (bound to the specification by C04/C07/C08)", "SHA-256 and BLS as provided by sha2 / blst"]
     chk.extra["exhaustive"] = True
     chk.extra["model_constants"] = [mcfg] + [g[0] for g in gens]
+    return chk.finish()
+
+
+def replay(path):
+    """re-run the histories of a replay file on the current tree (same builder, same bundle classes / test bundles,
+    same declared-cost labels; synthetic bundles are regenerated) and validate them again"""
+    wd = vlib.workdir("C10")
+    vlib.EVID = os.path.join(wd, "replay-evidence")  # a replay must not overwrite the evidence of the last run
+    chk = vlib.Check("C10", "quick")
+    cases = os.path.join(wd, "replay-cases.ndjson")
+    n = 0
+    with open(cases, "w") as f:
+        for it in json.load(open(path)):
+            h = it.get("case", {}).get("history")
+            if not h or h[0].get("k") != "reset":
+                continue
+            steps = []
+            for e in h[1:]:
+                if e["k"] == "add":
+                    steps.append({"b": [i if c == "T" else c for i, c in zip(e["sigs"], e["classes"])], "lbl": e["lbl"], "exit": e.get("exit", "")})
+            f.write(json.dumps({"kind": h[0]["kind"], "steps": steps}) + "\n")
+            n += 1
+    if not n:
+        raise ToolError("no replayable history in %s" % path)
+    t = os.path.join(wd, "replayed.ndjson")
+    vlib.harness(["builder", "--cases", cases, "--seed", chk.seed, "--out", t, "--bundles", os.path.join(vlib.REPO, "test-bundles")])
+    evs = annotate(t)
+    validate_parallel("Trace_BlockBuilder.tla", [t], chk, "builder-replay", sig_fn=sig, jobs=1, classes=CLASSES)
+    attach_histories(chk, {os.path.basename(t): evs})
+    chk.rule = "replay of %d recorded histories" % n
     return chk.finish()
